@@ -73,7 +73,10 @@ impl Stats {
 pub trait World: Sized {
     /// property id, e.g. "C17"
     const PROP: &'static str;
-    fn generate(seed: u64, tier: Tier) -> Self;
+    /// wall-clock cap for minimising one violation, and violations after which a worker stops
+    const MINIMISE_SECS: f64 = 120.0;
+    const MAX_VIOLATIONS_PER_WORKER: usize = 3;
+    fn generate(seed: u64, index: u64, tier: Tier) -> Self;
     fn to_json(&self) -> Value;
     fn from_json(v: &Value) -> Result<Self, String>;
     fn run(&self, st: &mut Stats) -> Verdict;
@@ -105,7 +108,7 @@ fn minimise<W: World>(w: W, class: &str, st: &mut Stats) -> (W, u64) {
     let mut tries = 0u64;
     let t0 = Instant::now();
     'outer: loop {
-        if tries > 4000 || t0.elapsed().as_secs_f64() > 120.0 {
+        if tries > 4000 || t0.elapsed().as_secs_f64() > W::MINIMISE_SECS {
             break;
         }
         for cand in cur.shrink() {
@@ -120,7 +123,7 @@ fn minimise<W: World>(w: W, class: &str, st: &mut Stats) -> (W, u64) {
                     continue 'outer;
                 }
             }
-            if tries > 4000 || t0.elapsed().as_secs_f64() > 120.0 {
+            if tries > 4000 || t0.elapsed().as_secs_f64() > W::MINIMISE_SECS {
                 break 'outer;
             }
         }
@@ -154,7 +157,7 @@ pub fn worker_main<W: World>(args: &[String]) -> i32 {
         }
         let i = start + k * stride;
         let s = mix(seed, i);
-        let w = W::generate(s, tier);
+        let w = W::generate(s, i, tier);
         let v = w.run(&mut st);
         done += 1;
         combined = mix(combined, v.log_hash);
@@ -179,7 +182,7 @@ pub fn worker_main<W: World>(args: &[String]) -> i32 {
             violations.push(json!({"run_index": i, "run_seed": s, "class": viol.class, "detail": detail,
                 "original_detail": viol.detail, "log_hash": format!("{:016x}", fin.log_hash),
                 "minimisation_runs": tries, "signature": m.signature(), "world": m.to_json()}));
-            if violations.len() >= 3 {
+            if violations.len() >= W::MAX_VIOLATIONS_PER_WORKER {
                 break;
             }
         }
